@@ -278,6 +278,12 @@ var (
 // innermost frame of the service ("" if there is none: then somebody is blocked where the simulator cannot see it,
 // which is the harness's trouble, not a verdict).
 func spinningSite(dump string) string {
+	site, _ := spinningSiteG(dump)
+	return site
+}
+
+// spinningSiteG also names the goroutine (its header line up to the state), so that two dumps can be compared.
+func spinningSiteG(dump string) (string, string) {
 	blocks := strings.Split(dump, "\n\n")
 	newest := -1
 	re := regexp.MustCompile(`synctest bubble (\d+)`)
@@ -289,7 +295,7 @@ func spinningSite(dump string) string {
 		}
 	}
 	if newest < 0 {
-		return ""
+		return "", ""
 	}
 	tag := fmt.Sprintf("synctest bubble %d]", newest)
 	for _, b := range blocks {
@@ -308,10 +314,10 @@ func spinningSite(dump string) string {
 			if k := strings.LastIndex(fn, "("); k > 0 {
 				fn = fn[:k]
 			}
-			return fn
+			return fn, strings.SplitN(lines[0], " [", 2)[0]
 		}
 	}
-	return ""
+	return "", ""
 }
 
 func execute(e *Engine, prop, tier string, seed uint64, t *Tape, opt map[string]string) (res *Result) {
